@@ -35,6 +35,69 @@ Proof.
   destruct (sm_sar m) as [[ref sseq] total]. destruct (0 <? total); split; reflexivity.
 Qed.
 
+(* put(segment): the first segment of a message starts a status cell under a new key; a later one joins the cell of the message
+   being sent under its reference *)
+Definition fresh_cell (m : smsg) (total : Z) : segstat :=
+  {| ss_status := map (fun i => (Z.of_nat i, STATUS_SENDING)) (seq 1 (Z.to_nat total)); ss_orig := m; ss_last_resp := None; ss_last_rcpt := None |}.
+
+Lemma put_store_first c now m eid ref sseq total :
+  is_submit m = true -> sm_sar m = (ref, sseq, total) -> 0 < total -> ~ 1 < sseq ->
+  put_store c now m eid =
+  {| c_store := dset (c_store c) (sm_seq m) {| e_at := now; e_msg := m; e_id := eid |};
+     c_seg := dset (c_seg c) (sm_seq m) (skey ref (sm_seq m), sseq);
+     c_stat := dset (c_stat c) (skey ref (sm_seq m)) (set_status (fresh_cell m total) sseq STATUS_SENDING);
+     c_cur := dset (c_cur c) ref (skey ref (sm_seq m)); c_ttl := c_ttl c |}.
+Proof.
+  intros Hs Hsar Ht Hn. unfold put_store. rewrite Hs, Hsar.
+  replace (0 <? total) with true by (symmetry; apply Z.ltb_lt; exact Ht).
+  replace (1 <? sseq) with false by (symmetry; apply Z.ltb_ge; lia).
+  reflexivity.
+Qed.
+
+Lemma put_store_join c now m eid ref sseq total k ss :
+  is_submit m = true -> sm_sar m = (ref, sseq, total) -> 0 < total -> 1 < sseq ->
+  dget ref (c_cur c) = Some k -> dget k (c_stat c) = Some ss ->
+  put_store c now m eid =
+  {| c_store := dset (c_store c) (sm_seq m) {| e_at := now; e_msg := m; e_id := eid |};
+     c_seg := dset (c_seg c) (sm_seq m) (k, sseq);
+     c_stat := dset (c_stat c) k (set_status ss sseq STATUS_SENDING);
+     c_cur := c_cur c; c_ttl := c_ttl c |}.
+Proof.
+  intros Hs Hsar Ht Hn Hc Hk. unfold put_store. rewrite Hs, Hsar.
+  replace (0 <? total) with true by (symmetry; apply Z.ltb_lt; exact Ht).
+  replace (1 <? sseq) with true by (symmetry; apply Z.ltb_lt; exact Hn).
+  cbn [with_store c_cur c_stat]. rewrite Hc, Hk. reflexivity.
+Qed.
+
+(* the other operations never touch the reference -> key map *)
+Lemma cumulated_cur c ref ss : c_cur (fst (cumulated c ref ss)) = c_cur c.
+Proof.
+  unfold cumulated. destruct (map snd (ss_status ss)); [reflexivity|].
+  destruct ((zmax_list l z =? STATUS_SENDING) || (zmax_list l z =? STATUS_SENT)); reflexivity.
+Qed.
+Lemma expired_cur c m : c_cur (fst (expired c m)) = c_cur c.
+Proof.
+  unfold expired. destruct (is_submit m); [|reflexivity]. destruct (dget (sm_seq m) (c_seg c)) as [[ref sseq]|]; [|reflexivity].
+  cbn [with_seg c_stat]. destruct (dget ref (c_stat c)) as [ss|]; [|reflexivity].
+  match goal with |- context [cumulated ?c2 ref ?s2] => pose proof (cumulated_cur c2 ref s2) as H; destruct (cumulated c2 ref s2) as [c3 code] end.
+  cbn [fst] in H. destruct ((code =? STATUS_EXPIRED) || (code =? STATUS_FAILED)); cbn [fst]; rewrite H; reflexivity.
+Qed.
+Lemma get_pop_cur c r : c_cur (fst (get_pop c r)) = c_cur c.
+Proof.
+  unfold get_pop. destruct (dget (rs_seq r) (c_store c)); [|reflexivity]. cbn [fst]. destruct (is_submit (e_msg e)); [|reflexivity].
+  cbn [with_store c_seg c_stat]. destruct (dget (rs_seq r) (c_seg c)) as [[ref sseq]|]; [|reflexivity]. destruct (dget ref (c_stat c)); reflexivity.
+Qed.
+Lemma get_segmented_cur c sq b : c_cur (fst (fst (get_segmented c sq b))) = c_cur c.
+Proof.
+  unfold get_segmented. destruct (dget sq (c_seg c)) as [[ref sseq]|]; [|reflexivity].
+  destruct b; cbn [with_seg c_stat].
+  - destruct (dget ref (c_stat c)) as [ss|]; [|reflexivity].
+    match goal with |- context [cumulated ?c2 ref ss] => pose proof (cumulated_cur c2 ref ss) as H; destruct (cumulated c2 ref ss) as [c3 code] end.
+    cbn [fst] in *. rewrite H. reflexivity.
+  - destruct (dget ref (c_stat c)) as [ss|]; [|reflexivity].
+    pose proof (cumulated_cur c ref ss) as H. destruct (cumulated c ref ss) as [c3 code]. cbn [fst] in *. exact H.
+Qed.
+
 Lemma get_pop_frame c r :
   c_ttl (fst (get_pop c r)) = c_ttl c
   /\ match dget (rs_seq r) (c_store c) with
